@@ -234,6 +234,51 @@ def wire_signature(b, seq):
     return found[0] if found else None
 
 
+def path_conds(b, seq):
+    """the conditions under which the wire integer b is read at all: the enclosing cond / if / match steps with the arm
+    taken, outermost first; binders inside the conditions are named by their wire signature (independent of numbering)"""
+    def norm(x):
+        if isinstance(x, list):
+            if len(x) == 2 and x[0] == "v" and isinstance(x[1], str):
+                return ["w", list(wire_signature(x[1], seq) or ("?" + x[1],))]
+            if x and x[0] == "tt" and len(x) > 1 and isinstance(x[1], str):
+                return ["tt", list(wire_signature(x[1], seq) or ("?" + x[1],))] + [norm(y) for y in x[2:]]
+            return [norm(y) for y in x]
+        return x
+    found = []
+    def rec(sq, path):
+        for st in sq["steps"]:
+            k = st[0]
+            if k == "u" and st[1] == b:
+                found.append(list(path))
+                return True
+            if k == "cond":
+                if rec(st[3], path + [["cond", norm(st[2])]]):
+                    return True
+            elif k == "ite":
+                if rec(st[3], path + [["if", norm(st[2]), True]]) or rec(st[4], path + [["if", norm(st[2]), False]]):
+                    return True
+            elif k == "switch":
+                for c, a in st[3]:
+                    if rec(a, path + [["case", norm(st[2]), c]]):
+                        return True
+                if rec(st[4], path + [["case", norm(st[2]), "default:" + ",".join(str(c) for c, _ in st[3])]]):
+                    return True
+            elif k in ("peek", "opt", "complete", "many0", "many1", "all_consuming", "cut"):
+                if rec(st[2], path):
+                    return True
+            elif k in ("sub", "count"):
+                if rec(st[3], path):
+                    return True
+            elif k == "alt":
+                for i_, a in enumerate(st[2]):
+                    if rec(a, path + [["alt", i_]]):
+                        return True
+        return False
+    rec(seq, [])
+    return json.dumps(found[0]) if found else None
+
+
 def read_positions(seq):
     """static byte ranges of the wire integers of a grammar: binder -> (input space, start, end, after_rewind, branch path).
     Offsets are tracked through fixed-width elements only; arms of a branch / alternative start at the same offset.
@@ -386,9 +431,10 @@ def run(tier, repo):
                 ssyms = resolve_all(sseq["ret"][1], acc, defs(sseq))
                 def sig(x, sq):
                     x = core(x)
-                    return ("u",) + tuple(wire_signature(x[1], sq) or ()) if x[0] == "v" else (x[0],)
+                    # where in its wire structure the integer sits, and under which conditions it is read at all
+                    return ("u",) + tuple(wire_signature(x[1], sq) or ()) + ("when", path_conds(x[1], sq)) if x[0] == "v" else (x[0],)
                 want_s, got_s = set(sig(x, sseq) for x in ssyms), set(sig(x, seq) for x in syms)
-                rp.check(want_s == got_s, "UNCONSTRAINED", key + "/same-wire-element", site(f), "%s is fed by a different wire element than in the reference grammar" % what,
+                rp.check(want_s == got_s, "UNCONSTRAINED", key + "/same-wire-element", site(f), "%s is fed by a different wire element than in the reference grammar, or read under different conditions" % what,
                          expected=str(sorted(want_s)), found=str(sorted(got_s)), why_ok="same position in its wire structure as in the reference grammar")
             except NotFound:
                 pass
